@@ -21,6 +21,10 @@ pub const BOUNDARY_POOL: &[&str] = &[
     "('abc' <~ 2..1)", "((1 2 3) <> (4 5) <~ 4..1)", "(:a.b.c <~ 1..0)", "(((1 2 3) <~ 0..1) <~ 5..0)", "(,)", "((1 2 3) <~ 1.5..2.5)",
     // non-ASCII text inside other values (conversions and comparisons walk it character by character)
     "(\"é\" 1)", "(:k = \"漢\")", "(\"é\" <> \"x\")", ":é", "(\"é😀漢\" <~ 1..2)", "('é' 1)",
+    // texts that spell numbers at and beyond the integer boundary (casts to a number read them digit by digit)
+    "\"2147483647\"", "\"2147483648\"", "\"-2147483648\"", "\"-2147483649\"", "\"99999999999999999999\"", "\"1e999\"", "\"-\"", "'2147483648'",
+    // slices whose range ends at the integer boundary (extent arithmetic)
+    "(\"abc\" <~ 0..2147483646)", "(\"abc\" <~ 0..2147483647)", "(\"abc\" <~ 3..(--2147483647))", "(\"abc\" <~ (--2147483647 - 1)..2147483647)", "((1 2 3) <~ 0..2147483647)", "('abc' <~ (--2147483647)..2147483646)",
 ];
 
 fn pool() -> Vec<&'static str> {
